@@ -13,7 +13,10 @@ use std::process::{Command, Stdio};
 use std::sync::{Arc, Mutex};
 
 pub const TAG_P: u64 = 0x50;
-const TIMEOUT_S: u32 = 20;
+/// I4 bounds: CPU seconds (load-independent; a normal compilation needs < 1 s) and a generous
+/// wall-clock alarm for a process that blocks without burning CPU.
+const CPU_LIMIT_S: u32 = 60;
+const TIMEOUT_S: u32 = 600;
 
 pub struct Ctx {
     pub corpus_dir: PathBuf,
@@ -360,7 +363,7 @@ pub fn run_proc(ctx: &Ctx, wd: &WorkerDir, job: &Job, text: &str, p: &Perturb, c
     }
 
     let mut cmd = Command::new(&ctx.launcher);
-    cmd.arg(TIMEOUT_S.to_string()).arg(&ctx.shim).arg(&plan_path).arg(&ctx.pdlc).args(&args);
+    cmd.arg(format!("{TIMEOUT_S}:{CPU_LIMIT_S}")).arg(&ctx.shim).arg(&plan_path).arg(&ctx.pdlc).args(&args);
     cmd.env_clear();
     for (k, v) in &p.env {
         cmd.env(k, v);
@@ -659,7 +662,7 @@ pub fn execute(ctx: &Ctx, wd: &WorkerDir, job: &Job, p: &Perturb, st: &mut RunSt
     note_enabled(p, st);
 
     if r.status >= 1000 {
-        return Some(Violation { invariant: "I4", detail: format!("reference compilation killed by signal {} (timeout {}s?)", r.status - 1000, TIMEOUT_S) });
+        return Some(Violation { invariant: "I4", detail: format!("reference compilation killed by signal {} (24 = more than {CPU_LIMIT_S}s of CPU, 14 = blocked for {TIMEOUT_S}s)", r.status - 1000) });
     }
 
     // --- java directory history ---
@@ -710,7 +713,7 @@ pub fn execute(ctx: &Ctx, wd: &WorkerDir, job: &Job, p: &Perturb, st: &mut RunSt
 
     // I4
     if got.status >= 1000 {
-        return Some(Violation { invariant: "I4", detail: format!("process killed by signal {} (14 = did not terminate within {}s under the fault plan)", got.status - 1000, TIMEOUT_S) });
+        return Some(Violation { invariant: "I4", detail: format!("process killed by signal {} under the fault plan (24 = more than {CPU_LIMIT_S}s of CPU, 14 = blocked for {TIMEOUT_S}s; a normal compilation needs < 1 s of CPU)", got.status - 1000) });
     }
 
     let hard_fired = got.log.counts.contains_key("rd_hard") || got.log.counts.contains_key("wr_hard") || got.log.counts.contains_key("wr_crash");
@@ -778,7 +781,9 @@ pub fn execute(ctx: &Ctx, wd: &WorkerDir, job: &Job, p: &Perturb, st: &mut RunSt
                     });
                 }
                 if job.backend == Backend::Java {
-                    let exact = matches!(p.java_hist, JavaHist::Empty | JavaHist::Same | JavaHist::LongerStale(_) | JavaHist::Torso(_));
+                    // after a crashed earlier run stray temporary files may legitimately remain: only the
+                    // class files of the description are judged then (as for a sibling's leftovers)
+                    let exact = matches!(p.java_hist, JavaHist::Empty | JavaHist::Same | JavaHist::LongerStale(_));
                     if let Some(d) = compare_java(&r, &got, exact) {
                         let inv = if matches!(p.java_hist, JavaHist::Empty) { "I1" } else { "I3" };
                         return Some(Violation { invariant: inv, detail: format!("{d} (directory history {:?})", p.java_hist) });
@@ -854,10 +859,10 @@ pub fn check_exclusion(ctx: &Ctx, wd: &WorkerDir, job: &Job, st: &mut RunStats) 
         });
     }
     let (stats, diff) = if job.backend == Backend::Java {
-        items::exclusion_diff_files(&base.files, &eout.files, &family)
+        items::exclusion_diff_files(&base.files, &eout.files, &g.ids, &family)
     } else {
         match (items::split_items(job.backend, &base.stdout), items::split_items(job.backend, &eout.stdout)) {
-            (Some(a), Some(b)) => items::exclusion_diff_items(&a, &b, &family),
+            (Some(a), Some(b)) => items::exclusion_diff_items(&a, &b, &g.ids, &family),
             _ => (items::ExclusionStats::default(), None),
         }
     };
